@@ -893,8 +893,12 @@ orc_parse_handle_opcode (OrcParser *parser, const OrcLine *line)
 
     args[j] = line->tokens[i];
 
+    /* a literal is what strtod() can start to read - which includes "inf",
+     * "nan" and anything beginning like them: a name the program declares
+     * is that variable */
     unused = strtod (line->tokens[i], &end);
-    if (end != line->tokens[i]) {
+    if (end != line->tokens[i] &&
+        orc_program_find_var_by_name (parser->program, line->tokens[i]) < 0) {
       char varname[80];
       int id;
 
